@@ -219,7 +219,7 @@ impl World {
 	pub fn callback(&mut self, frames: usize) -> Callback {
 		if !self.streams.is_empty() {
 			// decoder threads run between callbacks only (see probes::streamctl)
-			if !streamctl::wait_quiescent(&self.streams, Duration::from_secs(5)) {
+			if !streamctl::wait_quiescent_or_flag(&self.streams, Duration::from_secs(20)) {
 				self.quiescence_timeouts += 1;
 			}
 			streamctl::set_callback_active(true);
